@@ -20,6 +20,7 @@ func init() {
 		Assumptions: []string{"generated getters GetX() return field X"},
 		Run:         runC14,
 		Controls: []Control{
+			{Name: "positions-sorted-descending", File: "pkg/trait/openclosepb/model.go", Old: "\t\treturn int(a.Direction - b.Direction)", New: "\t\treturn int(b.Direction - a.Direction)", Expect: "R14.26"},
 			{Name: "preset-assigned-after-the-projection", File: "pkg/trait/openclosepb/model.go", Old: "\t\t\tpositions.Preset, _ = m.presetForValue(positions.States)\n\n\t\t\t// projection and filtering, positions refers to stored values so must not be modified in place\n\t\t\tpositions = responseFilter.FilterClone(positions).(*traits.OpenClosePositions)\n", New: "\t\t\t// projection and filtering, positions refers to stored values so must not be modified in place\n\t\t\tpositions = responseFilter.FilterClone(positions).(*traits.OpenClosePositions)\n\t\t\tpositions.Preset, _ = m.presetForValue(positions.States)\n", Expect: "R14.25"},
 			{Name: "positions-read-options-forwarded-to-the-items", File: "pkg/trait/openclosepb/model.go", Old: "\t\tfor change := range m.positions.Pull(ctx) {\n", New: "\t\tfor change := range m.positions.Pull(ctx, ops...) {\n", Expect: "R14.18"},
 			{Name: "ramp-final-write-unconditional", File: "pkg/trait/lightpb/memory.go", Old: "\t\t\t\t\t\tresource.WithResetPaths(\"target_level_percent\", \"brightness_tween\"),\n\t\t\t\t\t\tresource.WithExpectedValue(lastObj),\n", New: "\t\t\t\t\t\tresource.WithResetPaths(\"target_level_percent\", \"brightness_tween\"),\n", Expect: "R14.21"},
@@ -206,6 +207,10 @@ func runC14(c *an.Ctx) {
 	c.Min("R14.23", 1)
 	shareAs(c, "R01.1", "R14.24", r011, nil) // a rejected Update leaves Get unchanged: validation comes before the write (shared with R01.1)
 	c.Min("R14.24", 4)
+	shareAs(c, "R10.5", "R14.27", r105, nil) // an open Pull stream keeps receiving after ANOTHER stream of the register was cancelled: the registry drops the dead listener, keeps the live ones (shared with R10.5)
+	c.Min("R14.27", 2)
+	r1426(c, "R14.26")
+	c.Min("R14.26", 1)
 	r1425(c, "R14.25")
 	c.Min("R14.25", 5)
 	r1421(c, "R14.21")
@@ -1420,4 +1425,85 @@ func r1425(c *an.Ctx, rule string) {
 			"a field of the projected message is assigned after the read mask was applied: it reaches the subscriber whatever the mask says, and a field the mask names but that is derived later is missing when the projection decides what to send")
 	}
 	c.Count("functions_projecting_with_FilterClone", n)
+}
+
+// r1426: Get and Pull agree on the order of an aggregate's parts. openclose's Get lists the positions by the
+// collection's id order (the direction number, zero padded) and Pull sorts what it has folded with sortPositions:
+// ascending by direction, `a.Direction - b.Direction`. The comparison function takes its first parameter's field
+// first; reversed, every new Pull starts with the states in the opposite order to what Get returns.
+func r1426(c *an.Ctx, rule string) {
+	fn := c.Prog.Func("pkg/trait/openclosepb", "", "sortPositions")
+	if fn == nil {
+		c.Ok(rule, "pkg/trait/openclosepb|no separate sort of the pulled positions", 0, "")
+		return
+	}
+	name := an.FuncName(fn)
+	c.SawFunc(name)
+	n, ok := 0, true
+	for _, cl := range fn.AnonFuncs {
+		if len(cl.Params) != 2 {
+			continue
+		}
+		for _, r := range an.Returns(cl) {
+			if len(r.Results) != 1 {
+				continue
+			}
+			for _, v := range an.ValuesAt(r.Results[0]) {
+				bo, isBo := v.(*ssa.BinOp)
+				if !isBo || bo.Op != token.SUB {
+					if call, isCall := v.(*ssa.Call); isCall && (strings.HasPrefix(an.CalleeName(call), "cmp.Compare") || an.CalleeName(call) == "strings.Compare") && len(call.Call.Args) == 2 {
+						n++
+						if !derivesFromParam(call.Call.Args[0], cl.Params[0]) || !derivesFromParam(call.Call.Args[1], cl.Params[1]) {
+							ok = false
+						}
+					}
+					continue
+				}
+				n++
+				if !derivesFromParam(bo.X, cl.Params[0]) || !derivesFromParam(bo.Y, cl.Params[1]) {
+					ok = false
+				}
+			}
+		}
+	}
+	c.Check(ok && n > 0, rule, name+"|ascending by direction", fn.Pos(), "a.Direction - b.Direction",
+		"the comparison function does not order its first argument before its second by direction: Pull delivers the states in another order than Get and the Update response")
+}
+
+func derivesFromParam(v ssa.Value, p *ssa.Parameter) bool {
+	seen := map[ssa.Value]bool{}
+	var visit func(v ssa.Value) bool
+	visit = func(v ssa.Value) bool {
+		if v == nil || seen[v] {
+			return false
+		}
+		seen[v] = true
+		if v == ssa.Value(p) {
+			return true
+		}
+		switch x := v.(type) {
+		case *ssa.UnOp:
+			return visit(x.X)
+		case *ssa.FieldAddr:
+			return visit(x.X)
+		case *ssa.Convert:
+			return visit(x.X)
+		case *ssa.ChangeType:
+			return visit(x.X)
+		case *ssa.Call:
+			if x.Call.IsInvoke() || len(x.Call.Args) == 1 {
+				if x.Call.IsInvoke() {
+					return visit(x.Call.Value)
+				}
+				return visit(x.Call.Args[0])
+			}
+		}
+		for _, s := range an.Sources(v) {
+			if s != v && visit(s) {
+				return true
+			}
+		}
+		return false
+	}
+	return visit(v)
 }
